@@ -23,13 +23,13 @@ func streamLossy(r *vk.Run) {
 		v      int32
 	}
 	scripts := [][]step{
-		{{"remove", "x", 0}, {"add", "x", 1}},                                       // re-add the same content
-		{{"remove", "x", 0}, {"add", "x", 1}, {"update", "x", 1}},                    // ... and rewrite it
-		{{"remove", "x", 0}, {"add", "x", 2}},                                       // re-add different content: must be delivered
-		{{"update", "x", 2}, {"update", "x", 1}},                                    // there and back again
+		{{"remove", "x", 0}, {"add", "x", 1}},                                      // re-add the same content
+		{{"remove", "x", 0}, {"add", "x", 1}, {"update", "x", 1}},                  // ... and rewrite it
+		{{"remove", "x", 0}, {"add", "x", 2}},                                      // re-add different content: must be delivered
+		{{"update", "x", 2}, {"update", "x", 1}},                                   // there and back again
 		{{"remove", "x", 0}, {"add", "x", 2}, {"remove", "x", 0}, {"add", "x", 1}}, // twice
-		{{"update", "x", 1}},                                                         // rewrite with the same content
-		{{"remove", "x", 0}, {"add", "x", 1}, {"remove", "x", 0}},                   // ends removed
+		{{"update", "x", 1}},                                                       // rewrite with the same content
+		{{"remove", "x", 0}, {"add", "x", 1}, {"remove", "x", 0}},                  // ends removed
 	}
 	mk := func(v int32) *testproto.TestAllTypes {
 		return &testproto.TestAllTypes{DefaultInt32: v, DefaultString: fmt.Sprint("v", v)}
